@@ -37,6 +37,9 @@ mod session;
 mod tls;
 mod tok;
 mod util;
+#[cfg(lalrpop_verif)]
+#[allow(missing_docs)]
+pub mod verif;
 
 #[cfg(test)]
 mod generate;
